@@ -11,4 +11,11 @@ PROPS = {
         "assumptions": ["encoding/binary, bytes.Reader and io.ReadFull behave as documented",
                         "allocation bound is measured (runtime.MemStats) on oversize inputs, and proved on the model's allocation lists"],
     },
+    "C12": {
+        "lean": "Props.C12",
+        "facts": [],
+        "level_text": "Full-strength theorems for every mode, identity, auxiliary-gid list and 32-bit request word: the granted word decodes to exactly the per-bit UNIX decision and carries no other bit; granted is a subset of requested; LOOKUP/DELETE only on directories; no MODIFY/EXTEND/DELETE when read-only; owner/group/other precedence and the uid-0 override; bits above the six ACCESS3 bits are ignored. The real handleAccess is differentially checked against the model through HandleCall (exhaustively over modes x file/dir x ro x identity relations x masks in the thorough tier).",
+        "level_note": "Trusted: Lean kernel; correspondence harness (sets file mode on the reference backend and the node owner through a test hook, then sends real ACCESS calls); Go's os.FileMode bit layout.",
+        "assumptions": ["file mode comes from the backend's Lstat and owner from the handle's node attributes, as handleAccess reads them"],
+    },
 }
